@@ -376,6 +376,10 @@ func (ps *Pieces) del(p uint32, force bool) (done bool, complete bool) {
 			}
 		}
 		ps.mu.Lock()
+		// the lock was released: the piece may have been deleted meanwhile
+		if ps.pieces[p].data == nil {
+			return
+		}
 	}
 
 	done = true
